@@ -109,6 +109,7 @@ namespace
             int order_bias = (int)r.below(3); // LIFO / FIFO / random frees
             p.cfg = {nc};
             int n = (int)r.range(4, tier == THOROUGH ? 160 : 60);
+            if (r.chance(1, 40)) n *= 25; // a long history: what only accumulates over hundreds or thousands of operations
             int small = r.chance(1, 2);
             for (int i = 0; i < n; i++)
             {
@@ -388,6 +389,7 @@ namespace
             // the caller's block: a zone is any byte range, e.g. what is left of a buffer behind a header of 1..7 bytes
             p.cfg = {nc, elems, elsz, (int64_t)(r.below(4) + 4 * (r.chance(1, 2) ? r.below(8) : 0))};
             int n = (int)r.range(4, tier == THOROUGH ? 120 : 50);
+            if (r.chance(1, 40)) n *= 25; // a long history: what only accumulates over hundreds or thousands of operations
             int phase = 0, left = 0;
             for (int i = 0; i < n; i++)
             {
@@ -911,6 +913,7 @@ namespace
             int nc = (int)r.range(2, 4);
             p.cfg = {nc, (int64_t)r.below(11), (int64_t)r.below(3)};
             int n = (int)r.range(4, tier == THOROUGH ? 100 : 45);
+            if (r.chance(1, 40)) n *= 25; // a long history: what only accumulates over hundreds or thousands of operations
             int phase = 0, left = 0;
             for (int i = 0; i < n; i++)
             {
